@@ -267,7 +267,7 @@ CHECKS = {
             {"variant": "asan", "sub": "c08", "shards": T(tier, 4, 8), "cases": T(tier, 4, 60), "args": {"model_items": 50, "full": 0}, "timeout": T(tier, 1800, 10800)},
         ],
         "parallel": 12,
-        "rule": "a case is one partition of a window of the dataset into consecutive randomx_init_dataset calls handed to 1-16 threads: windows start at 0, end at the last item or lie anywhere; counts are 0..9, 4k, 4k+1..3, up to 5000, 1..3 (stack-buffer branch) or 'the rest'; both the interpreter initialiser (default cache) and the compiled one (JIT cache) are used; "
+        "rule": "a case is one partition of a window of the dataset into consecutive randomx_init_dataset calls handed to 1-16 threads: windows start at 0, end at the last item or lie anywhere; counts are 0..9, 4k, 4k+1..3, up to 5000, 1..3 (stack-buffer branch) or 'the rest'; both the interpreter initialiser (default cache) and the compiled one (JIT cache) are used, on odd shards through the LARGE_PAGES variants of the cache objects and on shards 2, 3, 6, 7, ... into a LARGE_PAGES dataset (huge-page requests served by ordinary pages through the interposed mmap); "
                 "before the calls the window +- 8 items is filled with a pattern, afterwards the margins must still hold it, every item of the window must equal initDatasetItem and sampled items the model's item; the cache's dataset-init function pointer is wrapped to log (thread, destination, start, end) and the log is checked for containment in the calling thread's request and "
                 "pairwise disjointness across threads; thorough adds the complete dataset by both initialisers on 16 threads (all 34 078 719 items compared, 200 000 against the model); distinct by hash of the partition",
         "assumptions": MODEL_ASSUMPTIONS[:1] + ["the dataset buffer is guard-allocated and lazily committed, only touched windows cost memory"],
